@@ -238,6 +238,8 @@ def render(prog, wrapper):
         L.append(f"{ind}        return x + 10 + 3 * k")
     if lit is not None:
         L.append(f'{ind}    ML_ = """' + lit + '"""')
+    if wrapper == "defaults":
+        L.append(f"{ind}    type = str     # a local that shadows the builtin the rewritten call sites rely on")
     L.append(f"{ind}    DEPTH[0] += 1")
     L.append(f"{ind}    try:")
     for p in R.prelude:
